@@ -228,7 +228,8 @@ Definition task_eqb (a b : task) : bool :=
   N.eqb (t_id a) (t_id b) && N.eqb (t_hook a) (t_hook b) && N.eqb (t_ty a) (t_ty b)
   && Bool.eqb (t_meta a) (t_meta b) && ctxs_eqb (t_ctxs a) (t_ctxs b)
   && ns_eqb (t_mids a) (t_mids b) && N.eqb (t_qn a) (t_qn b)
-  && Bool.eqb (t_kube a) (t_kube b) && N.eqb (t_group a) (t_group b) && Bool.eqb (t_exec a) (t_exec b).
+  && Bool.eqb (t_kube a) (t_kube b) && N.eqb (t_group a) (t_group b) && Bool.eqb (t_exec a) (t_exec b)
+  && Bool.eqb (t_af a) (t_af b).
 Definition tasks_eqb : list task -> list task -> bool := list_eqb task_eqb.
 
 (* queue [n] is, task for task, what it was *)
@@ -262,6 +263,17 @@ Definition stop_rule (t : task) : task -> bool :=
   else if synchronization t then exempt
   else nostop.
 
+(* The failure policy of the tasks ([t_af], the `allowFailure` of their bindings): "the tasks immediately
+   following it for the same hook are merged into it" - WHATEVER their bindings' allowFailure settings are.
+   [same_kind], [block], [after_block], [stop_rule] never look at [t_af]: a hook whose bindings mix
+   `allowFailure: true` with the default gets one run with all their contexts.  Every task that keeps its
+   place keeps its policy ([task_eqb] compares it).  Which policy the merged head carries afterwards, and
+   whether its failed run is forgiven, is another property's rule (C04: it allows failure only if every
+   merged task does); here the head that stays after a failed run may carry any policy - the one it is
+   observed with. *)
+Definition stored_policy (q' : list task) : bool :=
+  match q' with h :: _ => t_af h | [] => false end.
+
 (* the head [t] of queue [qn] = [t :: rest] was executed and took in the block delimited by [sp] *)
 Definition executed_with (sp : task -> bool) (t : task) (rest : list task) (qn : N) (o : ostepobs) : bool :=
   let b := block sp t rest in
@@ -274,7 +286,8 @@ Definition executed_with (sp : task -> bool) (t : task) (rest : list task) (qn :
       && tasks_eqb q'
            ((if st_success o then []
              else [mkTaskK (t_id t) (t_hook t) (t_ty t) true (ru_ctxs r)
-                           (t_mids t ++ flat_map t_mids b) (t_qn t) (t_kube t) (t_group t) (t_exec t)])
+                           (t_mids t ++ flat_map t_mids b) (t_qn t) (t_kube t) (t_group t) (t_exec t)
+                           (stored_policy q')])
             ++ after_block sp t rest)
   | _, _ => false
   end.
